@@ -162,7 +162,26 @@ Definition gap_least (pkts : list pkt) : nat := S (gap_need O pkts).
 
 Definition backlog_limit (maxq G : nat) : nat := (Nat.max maxq (3 + G) + G + 1)%nat.
 
+(* drops end only at a key-frame start: two consecutive delivered ids of the live part whose
+   published positions are not adjacent had something broadcast in between that was dropped for
+   backlog, so the second one starts a key frame *)
+Fixpoint gaps_ok (pkts : list pkt) (ids l : list Z) : bool :=
+  match l with
+  | [] => true
+  | x :: l' =>
+      match l' with
+      | [] => true
+      | y :: _ =>
+          (if (S (posZ x ids) <? posZ y ids)%nat then kind_of pkts y =? 2 else true) &&
+          gaps_ok pkts ids l'
+      end
+  end.
+(* the split of the C01 oracle (replayed part ++ live part), with the drop clause on its live part *)
+Definition split_ok4 (pkts : list pkt) (gopon : bool) (ids out : list Z) (j : nat) : bool :=
+  split_ok pkts gopon ids out j && gaps_ok pkts ids (skipn j out).
+
 Definition ok_C04 (c : lcase) (o : obs) : bool :=
+  let ids := map p_id (l_pkts c) in
   let G := gap_least (l_pkts c) in
   let lim := Z.of_nat (backlog_limit (l_maxq c) G) in
   Nat.eqb (length (o_cons o)) (l_n c) &&
@@ -177,4 +196,9 @@ Definition ok_C04 (c : lcase) (o : obs) : bool :=
            (if (pa <=? length (o_out k))%nat
             then ((o_pc k =? 4) || (o_pc k =? 5)) && negb (o_reg k) else true)
       else true))
-    (o_cons o).
+    (o_cons o) &&
+  (* drops are GOP-aligned (published ids pairwise distinct, as for ok_C01) *)
+  (if nodupZ ids
+   then forallb (fun k => existsb (split_ok4 (l_pkts c) (l_gop c) ids (o_out k))
+                                  (seq 0 (S (length (o_out k))))) (o_cons o)
+   else true).
